@@ -117,9 +117,9 @@ theorem C16.adjoint_transpose (mode : Mode) (n m off : Nat) (x y : Nat → K)
 shrinking in others: with the one-axis maps composed along the axes (forward: axis 0 first,
 adjoint: last axis first),
 `Σ_{idx ∈ box(sOut)} Y_idx (R X)_idx = Σ_{idx ∈ box(sIn)} X_idx (Rᵀ Y)_idx`
-for all admissible shapes/offsets and all contents.  (That the code's adjoint, which also
-runs axis 0 first, gives the same array is part of the correspondence run, not of this
-theorem: one-axis maps along different axes commute.) -/
+for all admissible shapes/offsets and all contents.  (The code's adjoint also runs axis 0
+first; that both orders give the same array — one-axis maps along different axes commute — is
+compared with the real code in the correspondence run and is not part of this statement.) -/
 theorem C16.adjoint_transpose_nd (mode : Mode) (sIn sOut offs : List Nat)
     (h : AdmissibleND mode sIn sOut offs) (X Y : List Nat → K) :
     sumBox sOut (fun idx => Y idx * resizeAxes mode .forward (0 : K) 0 sIn sOut offs X idx) =
